@@ -539,7 +539,7 @@ def run(tier, seed):
         "samples": [{"id": j[0], "runs": [[k, c if isinstance(c, list) else json.dumps(c)] for k, c in j[2][:2]]} for j in jobs[:2] + jobs[-2:]],
         "rule": "%d generator processes in %d groups (one group = one IR + configuration, >= 4 processes alternating the conjure-rust binary and the "
                 "library, 6 for crates with >= 2 dependencies); %d groups come from TLC cases (definition x flag forms), %d from %d IR documents "
-                "(3 designed families, the 103-shape zoo, the repository's 4 IR files, an IR with extensions) x 4 configurations; %d files compared per "
+                "(3 designed families, the 115-shape zoo, the repository's 4 IR files, an IR with extensions) x 4 configurations; %d files compared per "
                 "reference tree in total; 1 in 40 TLC groups and every crate-mode family group run under strace; per IR document one history of "
                 "%d generations in ONE process (the second on the first one's Config object), each tree compared with a fresh process's" % (
                     nruns, len(results), len(cases), nfam, len(fam), nfiles, len(SEQ_STEPS)),
